@@ -110,3 +110,36 @@ theorem fromAddress_total (chk : Bytes → Bytes) (s : List Char) : fromAddress 
 
 
 end ElaVerif.WalletCodec
+
+namespace ElaVerif.WalletCodec
+open ElaVerif.Digits ElaVerif.Script
+
+/-- the decoder accepts only the canonical encoding of what it returns: a string is accepted iff it is
+    exactly `toAddress` of the 21 bytes it yields — in particular its last four bytes are the checksum of
+    the first 21 (this is the checksum property in model terms: nothing else is ever accepted). -/
+theorem fromAddress_sound (fixed : Bool) (chk : Bytes → Bytes) (s : List Char) (u : Bytes)
+    (h : fromAddress fixed chk s = .val (.ok u)) : toAddress chk u = s ∧ u.length = 21 ∧ s.length = 34 := by
+  unfold fromAddress at h
+  split at h
+  · cases h
+  · rename_i hl
+    split at h
+    · cases h
+    · rename_i ds hds
+      simp only [] at h
+      split at h
+      · cases h
+      · split at h
+        · cases h
+        · rename_i hlen
+          split at h
+          · cases h
+          · rename_i heq
+            injection h with h
+            injection h with h
+            subst h
+            refine ⟨by simpa using heq, ?_, by omega⟩
+            simp only [List.length_take]
+            omega
+
+end ElaVerif.WalletCodec
